@@ -77,6 +77,12 @@ def corner_models():
     # older opsets: Softmax semantics changed at 13 (axis default and coercion to 2D), Squeeze axes attribute until 12
     out.append(("opset11-softmax", mk([oh.make_node("Softmax", ["x"], ["y"])], [vi("x", (2, 2, 2))], [vi("y", (2, 2, 2))], opset=11), True))
     out.append(("opset11-squeeze", mk([oh.make_node("Squeeze", ["x"], ["y"], axes=[0])], [vi("x", (1, 2))], [vi("y", (2,))], opset=11), True))
+    # an older default opset next to a node of another domain (the shape sklearn converters produce): the default-domain part must
+    # still be converted to the surrounding model's opset
+    out.append(("opset11-softmax-with-ml-node",
+                mk([oh.make_node("Softmax", ["x"], ["s"], axis=1),
+                    oh.make_node("Scaler", ["s"], ["y"], domain="ai.onnx.ml", scale=[2.0], offset=[0.5])],
+                   [vi("x", (2, 2, 2))], [vi("y", (2, 2, 2))], opset=11, extra_imports=[oh.make_operatorsetid("ai.onnx.ml", 1)]), True))
     out.append(("opset13-relu", mk([oh.make_node("Relu", ["x"], ["y"])], [vi("x")], [vi("y")], opset=13), True))
     for tag, m, _ in out:
         onnx.checker.check_model(m)
